@@ -23,6 +23,9 @@ def build_obs(tier, tables=None):
         for m in masks[:2]:
             obs.append(Ob("print-inherited-inst%d-pf%03x" % (hi, m), "print_step.c", ["-DHAS_ROOT=2", "-DHAS_INST1=%d" % hi, "-DPFMASK=%d" % m, "-DINDENT0=1"], unwind=11, checks="none",
                           params={"root_has_filter": "inherited (recursive entry)", "instance_has_own_filter": hi, "print_callback_mask": m, "start_indent": 1}))
+    # a "simple" option keeps its value in the application's variable: it has a value and is printed as such
+    obs.append(Ob("print-simple-int", "print_step.c", ["-DHAS_ROOT=1", "-DHAS_INST1=0", "-DPFMASK=0", "-DINDENT0=0", "-DSIMPLE_I"], unwind=11, checks="none",
+                  params={"root_has_filter": 1, "instance_has_own_filter": 0, "print_callback_mask": 0, "start_indent": 0, "simple_value_option": "i"}))
     obs.append(Ob("print-create-no-own-filter", "print_create.c", [], unwind=6, checks="none"))
     return obs
 
